@@ -127,3 +127,13 @@ package props
 //@   requires nilAs != nil
 //@   ensures  err == nil ==> self != nil && other != nil
 //@   assigns  nothing
+//
+// ---- C06: helpers that fill locally created tables (recursive, so the frame is stated) -----------
+//@ props C06
+//@ func props.parseJSONElems(elems) res
+//@   assigns nothing
+//@ func props.parseJSONMap(elems) res
+//@   assigns nothing
+//@   loop 1 invariant fresh(pairs) && pairs != nil
+//@ func props.parseJSONArr(elems) res
+//@   assigns nothing
